@@ -19,3 +19,5 @@ pub use level::{PriceLevel, PriceLevelData};
 pub use order_queue::OrderQueue;
 pub use snapshot::{PriceLevelSnapshot, PriceLevelSnapshotPackage};
 pub use statistics::PriceLevelStatistics;
+#[cfg(pricelevel_verif)]
+pub use entry::OrderBookEntry;
